@@ -316,3 +316,6 @@ benign("c02-benign-inverse-perm-rewritten", "C02", OPT, "    composed = [perm1[p
 mutant("c12-range-check-weakened-by-conjunction", "C12", CAF, "        if idx < 0 or idx >= upper_bound:", "        if idx < 0 or (idx >= upper_bound and upper_bound > 1):", expect="out-of-range")
 mutant("c05-uniqueness-check-weakened-by-conjunction", "C05", UIF, "    if len(set(targets)) != len(targets):", "    if len(set(targets)) != len(targets) and output_names is not None:", expect="unique-targets")
 mutant("c06-missing-jaxpr-check-weakened", "C06", LAXD + "while_loop.py", "        if cond_cj is None or body_cj is None:", "        if cond_cj is None and body_cj is None:", expect="missing-jaxprs")
+mutant("c13-original-read-after-write", "C13", "jax2onnx/plugins/_patching.py", "            orig = getattr(tgt, s.attr, _MISSING)\n            if isinstance(s, AssignSpec):\n                setattr(tgt, s.attr, s.value)", "            if isinstance(s, AssignSpec):\n                setattr(tgt, s.attr, s.value)\n            orig = getattr(tgt, s.attr, _MISSING)\n            if isinstance(s, AssignSpec):\n                pass", expect="R-C13e")
+mutant("c13-restore-writes-wrong-value", "C13", "jax2onnx/plugins/_patching.py", "                setattr(tgt, attr, orig)", "                setattr(tgt, attr, getattr(tgt, attr))", expect="restore-value")
+mutant("c13-refcounted-restore-wrong-value", "C13", PS, '                    setattr(tgt, attr, st["orig"])', '                    setattr(tgt, attr, st.get("new"))', expect="restore-value")
